@@ -101,4 +101,16 @@ PlainEvalOK(e) ==
     /\ e.num = (IF e.basis = "cheb" THEN ChebNum(e.p, e.x2) ELSE MonoNum(e.p, e.x2))
 \* EvaluateModP: the representative of p(x) in [0, P - 1]
 EvalModPOK(e) == ~e.err /\ ~e.panic /\ e.out = EvalMod(e.p, e.x, e.P)
+\* ChebyshevApproximation of x^k on [a, b] with at least k + 1 nodes is the interpolant of a polynomial of degree k,
+\* i.e. x^k itself: evaluated at x = x2/2 through its own change of basis it gives (x2)^k / 2^k; recorded times 2^10
+RECURSIVE IPow(_, _)
+IPow(x, k) == IF k = 0 THEN 1 ELSE x * IPow(x, k - 1)      \* TLC rejects 0^0 and negative bases
+ChebApxOK(e) ==
+    /\ ~e.err /\ ~e.panic /\ e.ischeb
+    /\ e.deg <= e.nodes
+    /\ Len(e.xs) = 2 * (e.b - e.a) + 1
+    /\ \A i \in 1..Len(e.xs) :
+          LET want == IPow(e.xs[i], e.k) * (2 ^ (10 - e.k))     \* k <= 5 and |x2| <= 16: below 2^31
+              d == e.num[i] - want
+          IN  d \in -1..1
 =============================================================================
